@@ -437,13 +437,13 @@ Proof.
 Qed.
 
 (* what the printer writes, split at `$` *)
-Lemma print_fields h salt : Forall param_ok (alg_params h) ->
+Lemma print_fields h salt : ~ In dollar (join [comma] (map show_param (alg_params h))) ->
   fields dollar (phc_print_x (writer_record h salt None)) =
   [] :: alg_name h ::
   (match alg_version h with Some v => [lit "v=" ++ dec v] | None => [] end)
   ++ [join [comma] (map show_param (alg_params h)); b64_enc salt].
 Proof.
-  intro PO. pose proof (alg_name_nodollar h) as NA. pose proof (params_nodollar h PO) as NP.
+  intro NP. pose proof (alg_name_nodollar h) as NA.
   assert (~ In dollar (b64_enc salt)) as NS by (apply notin_b64; vm_compute; reflexivity).
   unfold phc_print_x, writer_record. cbn [ph_alg ph_version ph_params ph_salt ph_hash].
   rewrite app_nil_r.
@@ -482,7 +482,7 @@ Proof.
   pose proof (alg_params_ok h V) as PO. destruct (alg_params_keys h) as (NE & _).
   rewrite (phc_parse_x_fields _ _ _ (match alg_version h with Some v => Some (Some v) | None => None end)
              [join [comma] (map show_param (alg_params h)); b64_enc salt]
-             (alg_params h) [b64_enc salt] (print_fields h salt PO)).
+             (alg_params h) [b64_enc salt] (print_fields h salt (params_nodollar h PO))).
   - unfold finish. rewrite salt_text_ok_enc by lia. cbn [negb]. rewrite b64_dec_enc.
     unfold writer_record. destruct (alg_version h); reflexivity.
   - apply alg_name_ident.
